@@ -469,9 +469,12 @@ def replay_main(argv):
             mod.setup(rec.get('tier', 'quick'))
     print('replaying', json.dumps(rec['case'], default=str)[:2000])
     if hasattr(mod, 'replay'):
-        return mod.replay(rec['case'])
+        rc = mod.replay(rec['case'])
+        if rc == 1:
+            print('VIOLATION property=%s replay=%s' % (prop, path))
+        return rc
     with quiet():
-        st, val = call_with_budget(lambda: mod.run(rec['case']), 20.0, 10000000)
+        st, val = call_with_budget(lambda: mod.run(rec['case']), max(20.0, 2 * getattr(mod, 'WALL_S', 20.0)), max(10000000, getattr(mod, 'LINE_BUDGET', 10000000)))
     if st == 'hang':
         print('HANG')
         print('VIOLATION property=%s replay=%s' % (prop, path))
